@@ -335,6 +335,7 @@ type c9PairResult struct {
 	refOK          bool
 	excluded       bool // the reference met name@p with name bound: documented error, outside the property
 	spellingShared bool
+	harnessBug     string // never a violation
 	unasserted     [2]bool
 	findings       []c9Finding
 }
@@ -457,6 +458,10 @@ func c9EvalPair(p *c9Pat, tr c9Tree, canon func(ast.Expr) string) (res c9PairRes
 		if sym == "" {
 			continue
 		}
+		if sym == "harness-inconsistency" {
+			res.harnessBug = fmt.Sprintf("direct and rendered State comparison disagree for %s on %s", p.text[sp], tr.Text)
+			continue
+		}
 		if ref.st.atomRecallEq > 0 {
 			// The outcome may hinge on what recalling a string/token means; see c9AtomRecall.
 			if alt == nil {
@@ -502,6 +507,7 @@ type c9Cand struct {
 	p            *c9Pat
 	tr           c9Tree
 	f            c9Finding
+	st           c9Stats
 }
 
 func (a *c9Cand) less(b *c9Cand) bool {
@@ -583,14 +589,11 @@ func (t *c9Totals) merge(o *c9Totals) {
 }
 
 type c9Run struct {
-	res      *vx.Result
-	canon    c9Canon
-	coll     *c9Collector
-	mu       sync.Mutex
-	tot      c9Totals
-	samples  atomic.Int32
-	unasEx   string
-	unasSeen atomic.Bool
+	res   *vx.Result
+	canon c9Canon
+	coll  *c9Collector
+	mu    sync.Mutex
+	tot   c9Totals
 }
 
 func (r *c9Run) pair(p *c9Pat, tr c9Tree, loc *c9Totals, coll *c9Collector) {
@@ -602,6 +605,10 @@ func (r *c9Run) pair(p *c9Pat, tr c9Tree, loc *c9Totals, coll *c9Collector) {
 		return
 	}
 	loc.bothSpellingsCompared++
+	if pr.harnessBug != "" {
+		r.res.NotExhaustive("harness self-check")
+		r.res.Note("%s", pr.harnessBug)
+	}
 	if pr.spellingShared {
 		loc.spellingShared++
 	}
@@ -626,28 +633,35 @@ func (r *c9Run) pair(p *c9Pat, tr c9Tree, loc *c9Totals, coll *c9Collector) {
 	}
 	if pr.unasserted[0] || pr.unasserted[1] {
 		loc.unasserted++
-		if !r.unasSeen.Load() {
-			r.mu.Lock()
-			if !r.unasSeen.Load() {
-				r.unasEx = fmt.Sprintf("%s on %s", p.text[0], tr.Text)
-				r.unasSeen.Store(true)
-			}
-			r.mu.Unlock()
-		}
+		coll.add(c9ClassUnasserted, &c9Cand{psize: p.size, tsize: tr.Size, ptext: p.text[0], ttext: tr.Text, p: p, tr: tr})
 	}
 	for _, f := range pr.findings {
 		class := c9Spelling[f.spelling] + "/" + f.symptom + "/" + p.feat
 		coll.add(class, &c9Cand{psize: p.size, tsize: tr.Size, ptext: p.text[f.spelling], ttext: tr.Text, p: p, tr: tr, f: f})
 	}
-	if nontriv && pr.refOK && len(pr.findings) == 0 && p.size >= 5 && r.samples.Load() < 6 {
-		r.mu.Lock()
-		if r.samples.Add(1) <= 6 {
-			r.res.Sample(map[string]any{"pattern": p.text[0], "pattern_explicit": p.text[1], "expr": tr.Text,
-				"or_alternatives_rolled_back": pr.st.orRollback, "not_operands_discarded": pr.st.notFailDisc, "recalls": pr.st.recalls})
+	if nontriv && pr.refOK && len(pr.findings) == 0 && p.size >= 5 && tr.Size >= 3 {
+		// samples: the smallest agreeing non-trivial pair per kind of mechanism (deterministic)
+		kind := "recall"
+		switch {
+		case pr.st.orRollback > 0 && pr.st.notFailDisc > 0:
+			kind = "or-rollback+not-discard"
+		case pr.st.orRollback > 0 && pr.st.recalls > 0:
+			kind = "or-rollback+recall"
+		case pr.st.orRollback > 0:
+			kind = "or-rollback"
+		case pr.st.notFailDisc > 0 && pr.st.recalls > 0:
+			kind = "not-discard+recall"
+		case pr.st.notFailDisc > 0:
+			kind = "not-discard"
 		}
-		r.mu.Unlock()
+		coll.add(c9ClassSample+kind, &c9Cand{psize: p.size, tsize: tr.Size, ptext: p.text[0], ttext: tr.Text, p: p, tr: tr, st: pr.st})
 	}
 }
+
+const (
+	c9ClassSample     = "sample/"
+	c9ClassUnasserted = "unasserted"
+)
 
 const c9Rule = "every pattern term up to the size bound over {_, name, name@p, (Binding \"name\" p), (Or 2-3 alternatives, nested), (Not p), strings, BinaryExpr, CallExpr, Ident, BasicLit, [] and head:tail lists}, at most 3 names introduced in the order x,y,z (plus hand-built 64- and 65-name patterns), printed in the shorthand and in the explicit (Binding ..)/(List ..) spelling, both parsed by the real pattern.Parser and run by the real Matcher on every Go expression tree up to the size bound over {a,b,1,2,+,-,call,parens}; success flag and, on success, Matcher.State (names and values, structurally) are compared with a functional-environment reference matcher written from doc.go. Patterns in which name@p can be reached with name possibly bound are excluded (documented error). Non-trivial = pair in which, according to the reference, an Or alternative or a Not operand failed after it had made a binding, or a bound name was recalled."
 
@@ -716,6 +730,7 @@ func TestVerifC09(t *testing.T) {
 			use = append(use, trees[n]...)
 		}
 		work := make(chan []*c9Term, 4*workers)
+		var skipped atomic.Int64
 		var wg sync.WaitGroup
 		for w := 0; w < workers; w++ {
 			wg.Add(1)
@@ -725,6 +740,7 @@ func TestVerifC09(t *testing.T) {
 				coll := c9NewCollector()
 				for batch := range work {
 					if res.Expired() {
+						skipped.Add(1)
 						continue // drain
 					}
 					for _, term := range batch {
@@ -767,7 +783,7 @@ func TestVerifC09(t *testing.T) {
 		}
 		close(work)
 		wg.Wait()
-		if res.Expired() {
+		if skipped.Load() > 0 {
 			stopped = true
 			res.NotExhaustive(fmt.Sprintf("time budget reached inside pattern size %d", size))
 		} else {
@@ -801,7 +817,11 @@ func TestVerifC09(t *testing.T) {
 		res.Note("the static double-definition filter let %d pairs through that the reference then excluded", tot.excludedPairs)
 	}
 	if tot.unasserted > 0 {
-		res.Unassert(fmt.Sprintf("recall of a name bound to a string or token: doc.go describes recalling nodes; the reference takes equality, the real matcher never matches such a recall (match() has no case for string/token on the left). %d pairs whose outcome hinges on this agree with the real matcher under the second reading and are not asserted (e.g. %s). The property constrains successful matches only and no unequal values are ever accepted, so this is not counted against C09.", tot.unasserted, run.unasEx))
+		ex := ""
+		if l := run.coll.best[c9ClassUnasserted]; len(l) > 0 {
+			ex = fmt.Sprintf("%s on %s", l[0].ptext, l[0].ttext)
+		}
+		res.Unassert(fmt.Sprintf("recall of a name bound to a string or token: doc.go describes recalling nodes; the reference takes equality, the real matcher never matches such a recall (match() has no case for string/token on the left). %d pairs whose outcome hinges on this agree with the real matcher under the second reading and are not asserted (smallest: %s). The property constrains successful matches only and no unequal values are ever accepted, so this is not counted against C09.", tot.unasserted, ex))
 	}
 	c9Report(run)
 }
@@ -813,6 +833,16 @@ func c9Report(run *c9Run) {
 	}
 	sort.Strings(classes)
 	for _, cl := range classes {
+		if cl == c9ClassUnasserted {
+			continue
+		}
+		if strings.HasPrefix(cl, c9ClassSample) {
+			c := run.coll.best[cl][0]
+			run.res.Sample(map[string]any{"kind": strings.TrimPrefix(cl, c9ClassSample), "pattern": c.p.text[0], "pattern_explicit": c.p.text[1], "expr": c.tr.Text,
+				"or_alternatives_rolled_back": c.st.orRollback, "not_operands_discarded": c.st.notFailDisc, "recalls": c.st.recalls,
+				"pairs_of_this_kind": run.coll.count[cl]})
+			continue
+		}
 		run.res.Count("violations:"+cl, run.coll.count[cl])
 		for i, c := range run.coll.best[cl] {
 			msg := c.f.message(c.p, c.tr)
@@ -852,6 +882,13 @@ func c9Replay(t *testing.T, run *c9Run, c c9Case) {
 	}
 	var loc c9Totals
 	run.pair(p, tr, &loc, run.coll)
+	if c.Spelling != "" { // a replay file names one spelling; the other one has its own key
+		for cl := range run.coll.best {
+			if cl != c9ClassUnasserted && !strings.HasPrefix(cl, c9ClassSample) && !strings.HasPrefix(cl, c.Spelling+"/") {
+				delete(run.coll.best, cl)
+			}
+		}
+	}
 	res.Eval(1)
 	res.States, res.Transitions, res.Validated = 1, loc.steps, 1
 	res.Sample(map[string]any{"pattern": p.text[0], "expr": tr.Text})
